@@ -252,6 +252,26 @@ func c33(args []string) error {
 						}
 					}
 				}
+			case "wt-add-dup":
+				// a second add under a name in use, into another directory: must be refused, and the
+				// state comparison below checks that the existing worktree is left alone
+				m, err := git.PlainOpen(w.dir("main"))
+				if err != nil {
+					opErr = err
+					break
+				}
+				mgr, err := xworktree.New(m.Storer)
+				if err != nil {
+					opErr = err
+					break
+				}
+				dup := w.dir(s.W + "-dup")
+				os.RemoveAll(dup)
+				if err := mgr.Add(osfs.New(dup), s.W); err == nil {
+					fail(i, "wt-add-dup|accepted", "a second worktree add under the name "+s.W+" (in use) was accepted")
+					ok = false
+				}
+				os.RemoveAll(dup)
 			case "wt-add", "wt-add-detached", "wt-remove":
 				m, err := git.PlainOpen(w.dir("main"))
 				if err != nil {
